@@ -898,6 +898,31 @@ func (g *gen) chanStmt() {
 	if g.off("chan") {
 		return
 	}
+	if g.p.Probes && len(g.varsOf(TPS)) > 0 && g.chance(30, "chanstruct") {
+		// a struct VALUE that holds pointers travels through a channel, sent by a select case
+		p, _ := g.pickVar(TPS, "chanstructv")
+		ch, got, q := g.fresh(), g.fresh(), g.fresh()
+		g.feat("chan-of-structs-select-send")
+		g.emit("%s := make(chan S, 2)", ch)
+		g.emit("select {")
+		g.emit("case %s <- S{A: \"c\", P: %s.P, L: %s.L, M: %s.M, N: %s}:", ch, p.name, p.name, p.name, p.name)
+		g.emit("default:")
+		g.emit("}")
+		g.emit("if len(%s) > 0 {", ch)
+		g.emit("\t%s := <-%s", got, ch)
+		g.emit("\t%s := %s.N; _ = %s", q, got, q)
+		g.nprobe++
+		g.emit("\tprobePS(%d, %s)", g.nprobe, p.name)
+		g.nprobe++
+		g.emit("\tprobePS(%d, %s)", g.nprobe, q)
+		g.nprobe++
+		g.emit("\tprobeP(%d, %s.P)", g.nprobe, p.name)
+		g.nprobe++
+		g.emit("\tprobeP(%d, %s.P)", g.nprobe, got)
+		g.emit("}")
+		g.feat("probe")
+		return
+	}
 	if g.p.Go && len(g.varsOf(TPS)) > 0 && g.chance(25, "chanptr") {
 		// a channel of pointers: an object is put in the channel, then a select whose send case is listed before its
 		// receive case may take it out again; the received pointer is used in the case body
